@@ -626,7 +626,7 @@ pub fn run_c01(ctx: &mut Ctx) -> Vec<Violation> {
         }
         out.extend(v);
     }
-    out.extend(run_prop(ctx, "random-plans", t.pick(2_400, 48_000), 60, plan_strategy(), |ctx, p| {
+    out.extend(run_prop(ctx, "random-plans", t.pick(16_000, 120_000), 60, plan_strategy(), |ctx, p| {
         ctx.sample("random-plans", 3, p);
         check_forgery(ctx, p)
     }));
@@ -854,7 +854,7 @@ pub fn run_c03(ctx: &mut Ctx) -> Vec<Violation> {
         ctx.sample("grid", 2, &grid[grid.len() / 3]);
     }
     out.extend(v);
-    out.extend(run_prop(ctx, "random", t.pick(1_600, 24_000), 40, honest_strategy(), |ctx, p| {
+    out.extend(run_prop(ctx, "random", t.pick(8_000, 60_000), 40, honest_strategy(), |ctx, p| {
         ctx.sample("random", 3, p);
         check_honest(ctx, p)
     }));
